@@ -22,6 +22,15 @@ open CwPlus
 /-- E3 for one bank denomination: it is not of the form `"cw20:" ++ a`. -/
 def NativeOk (d : String) : Prop := ∀ a, d ≠ "cw20:" ++ a
 
+theorem cw20_prefix_toList : "cw20:".toList = ['c', 'w', '2', '0', ':'] := by decide
+
+/-- A checkable criterion for E3: the first five characters are not `cw20:`. -/
+theorem nativeOk_of_take {d : String} (h : d.toList.take 5 ≠ ['c', 'w', '2', '0', ':']) : NativeOk d := by
+  intro a e
+  apply h
+  rw [e, String.toList_append, cw20_prefix_toList]
+  simp
+
 /-- The environment assumptions about a history run against a contract with address `me` in a world
 whose real cw20 token contracts are `tokens`. -/
 structure EnvAssumptions (me : Addr) (tokens : List Addr) (ops : List (Block × Op)) : Prop where
@@ -318,5 +327,44 @@ theorem entries_eq_of_same_storage_key {m : ChanMap} (hnd : AMap.NodupKeys m) (h
   have h2 := get?_of_mem_nodup hnd he'
   rw [hkey, h2] at h1
   exact Prod.ext hkey (Option.some.inj h1).symm
+
+/-! ## Ghost histories under the unguarded semantics -/
+
+def stepGRaw (wg : World × Ghost) (blk : Block) (op : Op) : World × Ghost :=
+  if admissible wg.2 op then
+    match wg.1.execRaw blk op with
+    | .ok (w', o) => (w', wg.2.update w' op o)
+    | .error _ => wg
+  else wg
+
+/-- Histories with ghosts under the unguarded semantics. -/
+def runGRaw (wg : World × Ghost) (ops : List (Block × Op)) : World × Ghost :=
+  ops.foldl (fun wg o => stepGRaw wg o.1 o.2) wg
+
+theorem stepG_self_tokens (wg : World × Ghost) (blk : Block) (op : Op) :
+    (stepG wg blk op).1.self = wg.1.self ∧ (stepG wg blk op).1.tokens = wg.1.tokens := by
+  unfold stepG
+  split
+  · split
+    · rename_i w' o h; exact exec_self_tokens h
+    · exact ⟨rfl, rfl⟩
+  · exact ⟨rfl, rfl⟩
+
+/-- On every history satisfying the environment assumptions the ghost histories of both semantics coincide. -/
+theorem runGRaw_eq_runG (wg : World × Ghost) (ops : List (Block × Op))
+    (henv : EnvAssumptions wg.1.self wg.1.tokens ops) : runGRaw wg ops = runG wg ops := by
+  induction ops generalizing wg with
+  | nil => rfl
+  | cons o rest ih =>
+    have hstep : stepGRaw wg o.1 o.2 = stepG wg o.1 o.2 := by
+      unfold stepGRaw stepG
+      rw [execRaw_eq_exec henv.head_guard]
+      rfl
+    simp only [runGRaw, runG, List.foldl_cons] at ih ⊢
+    rw [hstep]
+    apply ih
+    obtain ⟨e1, e2⟩ := stepG_self_tokens wg o.1 o.2
+    rw [e1, e2]
+    exact henv.tail
 
 end CwPlus.Ics20
